@@ -118,7 +118,7 @@ def t_is_empty(world):
 
 _t04 = tasks
 def tasks(tier):
-    K = 4 if tier == 'quick' else 8
+    K = 4 if tier == 'quick' else 6
     return _t04(tier) + [('health_decision', t_health_decision), ('components', mk_components(K)), ('tiers', mk_tiers(3 if tier == 'quick' else 5)), ('is_empty', t_is_empty)]
 
 
